@@ -144,6 +144,52 @@ def make(kind, kw):
         bounds="8 component kinds x text_convert unset | True | False | [True] | [False] | [[True]] | [[False]]",
         what="each component converts by its documented default (title, body, header, footnote, source: on; subline, page header/footer: "
              "off) and an explicit text_convert in any accepted spelling - scalar False included - overrides it"))
+    # O5: the switch is honoured call by call - an earlier conversion of the same text with the other setting changes nothing
+    obs.append(Ob(
+        oid="O5.toggle_history", sig="a: int, b: int, first: bool", pre=["0 <= a <= 6 and 0 <= b <= 6"], header=HDRT, timeout=T,
+        body=r"""
+    PARTS = ["^", "_", "\n", "a", " ", chr(92) + "alpha ", chr(92) + "pm 1"]
+    text = pick(PARTS, a) + pick(PARTS, b) + " = 2"       # comparison signs are O2's subject (known finding there)
+    def want(out, conv):
+        if not conv:
+            return out == text            # ASCII text, conversion off: verbatim
+        return run_events(out) == ref_events(ref_latex(text), True)
+    out1 = TextContent._convert_special_chars(NS(text=text, convert=first))
+    out2 = TextContent._convert_special_chars(NS(text=text, convert=not first))
+    out3 = TextContent._convert_special_chars(NS(text=text, convert=first))
+    return want(out1, first) and want(out2, not first) and out3 == out1
+""",
+        funcs=["rtflite.row:TextContent._convert_special_chars", "rtflite.services.text_conversion_service:TextConversionService.convert_text_content"],
+        bounds="the same text (two symbolic parts over {^ _ newline a space \\alpha \\pm} + ' = 2') converted three times in one "
+               "process with the switch on/off/on or off/on/off (symbolic)",
+        what="each call converts according to ITS OWN text_convert: no result of an earlier call with the other setting is reused"))
+    # O6: per-line switches of a multi-line title-like component
+    obs.append(Ob(
+        oid="O6.line_flags", sig="a: int, b: int, k: int", pre=["0 <= a <= 4 and 0 <= b <= 4", "0 <= k <= 3"], timeout=T,
+        header=HDRT + r"""
+import re
+import rtflite as rtf
+from rtflite import attributes
+from vf.hlib import with_tc
+TOK = ["^2", "_i", "-", "^a b", "a_b^c"]
+FLAGS = [(False, False), (False, True), (True, False), (True, True)]
+TITLES = [rtf.RTFTitle(text=["", ""], text_convert=list(f)) for f in FLAGS]
+""",
+        body=r"""
+    kk = concrete_int(k, 0, 3)
+    flags = FLAGS[kk]
+    lines = ["x" + pick(TOK, a) + "y", "p" + pick(TOK, b) + "q"]
+    out = with_tc(lambda: attributes.TextAttributes._encode_text(TITLES[kk], lines, "line"))
+    groups = re.findall(r"\{\\f0 ([^{}]*)\}", out)
+    if len(groups) != 2 or out.count("{") != 3 or out.count("}") != 3:
+        return False
+    return all(run_events(g) == ref_events(l, f) for g, l, f in zip(groups, lines, flags))
+""",
+        funcs=["rtflite.attributes:TextAttributes._encode_text", "rtflite.row:TextContent._as_rtf", "rtflite.row:TextContent._convert_special_chars"],
+        stubs=["TextContent(...) -> TextContent.model_construct(...)"],
+        bounds="a two-line title whose lines each contain one of {^2, _i, -, ^a b, a_b^c} (symbolic) with per-line text_convert in all four "
+               "combinations",
+        what="each line of a multi-line component is converted according to its own text_convert value, exactly once"))
     meta = {
         "explanation": "The real regex pass is executed symbolically per table entry with a SYMBOLIC neighbouring character (class: "
                        "neither letter nor brace) and solver-enumerated letter / brace-group continuations against a reference "
